@@ -330,6 +330,9 @@ func vfLoadedTopicKinds() []string {
 	return out
 }
 
+// request ids of the last p2p-unsub-pub execution (leave, pub)
+var vfUnsubPubIDs [2]string
+
 func vfC14Scenarios() []vfScenario {
 	return []vfScenario{
 		// two sessions of one user: one leaves while the other publishes and a third user re-attaches
@@ -481,6 +484,29 @@ func vfC14Scenarios() []vfScenario {
 			}
 			obs.Outcome += fmt.Sprintf(",suspended=%v,attached=%v,pub=%d", suspended, attached, code)
 		}),
+		// a p2p participant unsubscribes and publishes on the same connection: the two requests reach the
+		// topic through different channels, so it may handle them in either order; once it has removed
+		// the subscription it must not accept the author's publish any more (C03 "currently subscribed")
+		vfRaceScenario("p2p-unsub-pub", [2]int{1, 2}, true, func(g *vfGW, tr *[]vfReqTrack) {
+			g.post(tr, "ma", "leave", g.users["o"].id(), `,"unsub":true`)
+			g.post(tr, "ma", "pub", g.users["o"].id(), "")
+			vfUnsubPubIDs = [2]string{(*tr)[len(*tr)-2].ID, (*tr)[len(*tr)-1].ID}
+		}, func(g *vfGW, obs *vfRaceObs) {
+			leaveAt, pubAt := -1, -1
+			for i, f := range g.cl["ma"].frames {
+				if ct := f.Msg.Ctrl; ct != nil {
+					if ct.Id == vfUnsubPubIDs[1] && ct.Code == 202 {
+						pubAt = i
+					} else if ct.Id == vfUnsubPubIDs[0] && ct.Code >= 200 && ct.Code < 300 {
+						leaveAt = i
+					}
+				}
+			}
+			if leaveAt >= 0 && pubAt > leaveAt {
+				obs.Violations = append(obs.Violations, vfXViolation{Key: "C03:publish-accepted-after-unsubscribe:p2p", What: "the topic answered the {leave unsub} first and then accepted the same user's {pub} (202): the author was not subscribed any more"})
+			}
+			obs.Outcome += fmt.Sprintf(",leaveAt=%v,pubAt=%v", leaveAt >= 0, pubAt >= 0)
+		}),
 		// account deletion racing with the user's own subscribe to 'me' and a publish
 		vfRaceScenario("deluser-subme", [2]int{1, 2}, false, func(g *vfGW, tr *[]vfReqTrack) {
 			g.post(tr, "x1", "sub", "me", "")
@@ -507,7 +533,7 @@ func TestVerifC03Races(t *testing.T) {
 	defer r.Finish()
 	var sel []vfScenario
 	for _, sc := range vfC14Scenarios() {
-		if sc.Name == "deltopic-sub-pub" || sc.Name == "leave-evict" || sc.Name == "suspend-load-pub" {
+		if sc.Name == "deltopic-sub-pub" || sc.Name == "leave-evict" || sc.Name == "suspend-load-pub" || sc.Name == "p2p-unsub-pub" {
 			sel = append(sel, sc)
 		}
 	}
